@@ -278,9 +278,13 @@ CLAIMS = {
              "unbounded (invariant of get_data: the unconsumed bytes are the image between cursor and read "
              "position), the number of categories is bounded (0-2 quick, 0-3 thorough). parse_sync_managers gives "
              "each mailbox and process-data area the offset, size and register address of the last entry of its "
-             "kind, for any number of entries (loop invariant with a ghost entry). parse_pdos (EEPROM source) gives "
-             "every mapped entry its byte offset and bit position or format and returns the bit totals - bounded: "
-             "categories of up to 3 (thorough 4) eight-byte slots. The SDO source of parse_pdos is not covered.",
+             "kind, for any number of entries (loop invariant with a ghost entry). parse_pdos (EEPROM source): the "
+             "nested generator yields exactly the stored entries in order for categories of any number of PDOs and "
+             "entries (ghost slot structure, two loop invariants), and the nested consumer gives every mapped entry "
+             "of any sequence its byte offset and bit position or format and returns the bit total (ghost prefix "
+             "sums, dict observed at an arbitrary ghost key); their composition inside parse_pdos is checked end to "
+             "end for categories of up to 3 (thorough 4) eight-byte slots. The SDO source of parse_pdos is not "
+             "covered.",
         note=PYVC_TRUST + "; EEPROM interface contract written from ETG.1000.4; parse_pdos over the SDO source "
              "(sdo_read_format) and EBPFTerminal.apply_eeprom's size rounding are not under contract"),
     "C16": dict(
